@@ -14,5 +14,5 @@ Emit == done => PrintT(<<"REPLAY", ToJson(hist)>>)
 AllClasses == {"valid", "valid_partial", "valid_intermediate", "extra_input", "unknown_input", "unknown_output",
   "op_input", "op_output", "dup_input", "dup_input_extra", "dup_output", "missing_input", "wrong_dtype",
   "wrong_rank", "wrong_dim", "partial_dup_output", "partial_unknown", "partial_wrong_dtype", "run_one",
-  "run_one_wrong_dtype", "repeat", "reordered", "prev_dup_input", "prev_dup_output"}
+  "run_one_wrong_dtype", "repeat", "reordered", "prev_dup_input", "prev_dup_output", "prev_plus_intermediate"}
 =============================================================================
